@@ -189,7 +189,8 @@ pub struct Alphabet {
     pub inits: Vec<Init>,
     pub thorough: bool,
     /// 0 = unrelated contents AA/BB(/A); 1 = related contents A, A+NUL(, NUL): proper prefix / suffix, concatenation,
-    /// trailing zero byte; 2 = the three related contents over four ids from two fresh objects, depth-bounded
+    /// trailing zero byte; 2 = the three related contents over four ids from two fresh objects, depth-bounded;
+    /// 3 = two unrelated contents over the four adjacent ids 0..=3 from fresh objects (quick: depth 6; thorough: fix-point)
     pub variant: u8,
     /// histories longer than this are not expanded (None = to fix-point)
     pub max_depth: Option<usize>,
@@ -203,6 +204,18 @@ impl Alphabet {
         Self::variant(case["thorough"].as_bool().unwrap_or(false), case["variant"].as_u64().unwrap_or(0) as u8)
     }
     pub fn variant(thorough: bool, variant: u8) -> Self {
+        if variant == 3 {
+            // four ADJACENT ids and two unrelated contents from two fresh objects, to fix-point: the only alphabet in
+            // which contents can alternate A,B,A,B on consecutive ids (round 8: a run-extension fast path keyed on the
+            // content written last, which a deduplicated tile in between leaves stale)
+            // quick: one fresh object, all histories of at most 6 operations (A,B,A,B + save is 5); thorough: two, to fix-point
+            let mut inits = vec![Init::Fresh(Api::Sync, Compression::None)];
+            if thorough {
+                inits.push(Init::Fresh(Api::Async, Compression::GZip));
+            }
+            let max_depth = if thorough { None } else { Some(6) };
+            return Self { ids: vec![0, 1, 2, 3], contents: vec![b"AA".to_vec(), b"BB".to_vec()], outsider: 4, foreign: Vec::new(), inits, thorough, variant, max_depth };
+        }
         let ids: Vec<u64> = if thorough || variant == 2 { vec![0, 1, 2, 5] } else { vec![0, 1, 2] };
         let (k0, k1, k2): (&[u8], &[u8], &[u8]) = if variant == 0 { (b"AA", b"BB", b"A") } else { (b"A", b"A\0", b"\0") };
         let contents: Vec<Vec<u8>> = if thorough || variant == 2 { vec![k0.to_vec(), k1.to_vec(), k2.to_vec()] } else { vec![k0.to_vec(), k1.to_vec()] };
